@@ -12,6 +12,7 @@ import (
 	"fmt"
 	"go/format"
 	"go/parser"
+	"go/scanner"
 	"go/token"
 	"math/rand"
 	"os"
@@ -449,7 +450,9 @@ func c01Matrix() []c01cell {
 	}
 	// E. free-text shapes at every description position
 	texts := []string{"plain", "two\nlines", "ends with newline\n", "with */ star-slash", "with /* slash-star", "// slashes", "quote \" and backtick ` and \\ backslash",
-		"tab\there", "trailing space ", "\nleading newline", "unicode é 名前", "{{ template }}", "%d %s", "line1\r\nline2", "a\n\n\nb", strings.Repeat("long ", 60)}
+		"tab\there", "trailing space ", "\nleading newline", "unicode é 名前", "{{ template }}", "%d %s", "line1\r\nline2", "a\n\n\nb", strings.Repeat("long ", 60),
+		// continuation lines that are Go declarations: a text that escapes its comment is then not stopped by the parser
+		"Lists items.\nvar total int = \"many\"", "doc\nfunc init() { undefinedName() }\n"}
 	for ti, t := range texts {
 		for _, pos := range []string{"info", "op-summary", "op-description", "param", "schema", "property", "response", "resp-header", "component-response", "reqbody-comp", "path-param"} {
 			sp := c01Base()
@@ -683,6 +686,7 @@ func runC01(c runCfg) error {
 	}
 	if c.Cases == "" {
 		lines = append(lines, c01NameLines(rng, c.Thorough)...)
+		lines = append(lines, c01TextLines(rng, c.Thorough)...)
 	}
 	root, err := mkRoot(c)
 	if err != nil {
@@ -707,6 +711,18 @@ func runC01(c runCfg) error {
 		if f[0] == "N" && len(f) == 3 && f[1] == "pfn" {
 			impl[i] = "impl=" + dialect.Hx(generator.PublicFieldName(dialect.UnHx(f[2])))
 			counts["names"]++
+			continue
+		}
+		if f[0] == "N" && len(f) == 3 && f[1] == "cmt" {
+			impl[i] = c01CommentImpl(dialect.UnHx(f[2]))
+			counts["comments"]++
+			continue
+		}
+		if f[0] == "N" && len(f) == 3 && f[1] == "lex" {
+			lx := &lexState{}
+			lx.feed(dialect.UnHx(f[2]))
+			impl[i] = "impl=" + lx.name()
+			counts["lexer"]++
 			continue
 		}
 		if f[0] != "C01" {
@@ -781,6 +797,78 @@ func c01NameLines(rng *rand.Rand, thorough bool) []string {
 		}
 		seen[s] = true
 		out = append(out, "N pfn "+dialect.Hx(s))
+	}
+	return out
+}
+
+// c01CommentImpl runs the generator's own `comment` template function on a free text — through the StructureField template,
+// which writes `// {{ comment .Comment }}` — and checks with go/scanner that the text it wrote consists of comments only
+func c01CommentImpl(text string) string {
+	out, err := generator.ExecuteTemplate("StructureField", struct {
+		Comment     string
+		Embedded    bool
+		Name        string
+		FieldTypeFn func() (string, error)
+	}{text, true, "", func() (string, error) { return "T", nil }})
+	if err != nil {
+		return "SKIP template-error"
+	}
+	out = strings.TrimPrefix(strings.TrimSuffix(out, "/** <<< StructureField */"), "/** StructureField >>> */")
+	if !strings.HasPrefix(out, "// ") || !strings.HasSuffix(out, "\nT") {
+		return "SKIP template-shape"
+	}
+	body := strings.TrimSuffix(strings.TrimPrefix(out, "// "), "\nT")
+	// the Go scanner's view of what was written before the field type
+	var sc scanner.Scanner
+	fset := token.NewFileSet()
+	src := []byte(strings.TrimSuffix(out, "T"))
+	sc.Init(fset.AddFile("", fset.Base(), len(src)), src, nil, scanner.ScanComments)
+	for {
+		_, tok, _ := sc.Scan()
+		if tok == token.EOF {
+			break
+		}
+		if tok != token.COMMENT && tok != token.SEMICOLON {
+			return "impl=ESCAPES:" + dialect.Hx(body)
+		}
+	}
+	return "impl=" + dialect.Hx(body)
+}
+
+// free texts and Go-ish text for the differential runs of the comment function and of the translator's lexer
+func c01TextLines(rng *rand.Rand, thorough bool) []string {
+	n := 1500
+	if thorough {
+		n = 20000
+	}
+	atoms := []string{"\n", "\n", "\n\n", "\r\n", "\r", "//", "/*", "*/", "\"", "`", "'", "\\", " ", "a", "var x = 1", "func f() {}", "é", "\t", "*", "/", "x"}
+	seen := map[string]bool{"": true}
+	var out []string
+	for len(out) < 2*n {
+		var b strings.Builder
+		k := rng.Intn(8)
+		for i := 0; i < k; i++ {
+			b.WriteString(atoms[rng.Intn(len(atoms))])
+		}
+		s := b.String()
+		if seen[s] {
+			if len(out) > n && len(seen) > n/2 {
+				break
+			}
+			continue
+		}
+		seen[s] = true
+		out = append(out, "N cmt "+dialect.Hx(s), "N lex "+dialect.Hx(s))
+	}
+	// the literal text of the generator's own templates, as the translator feeds it
+	files, _ := filepath.Glob("/repo/generator/*.gotmpl")
+	for _, f := range files {
+		if src, err := os.ReadFile(f); err == nil {
+			txt := string(src)
+			for _, cut := range []int{len(txt), len(txt) / 2, len(txt) / 3} {
+				out = append(out, "N lex "+dialect.Hx(txt[:cut]))
+			}
+		}
 	}
 	return out
 }
